@@ -16,7 +16,7 @@ from utype.utils import exceptions as uexc   # noqa: E402
 
 ID = "C10"
 LEVEL = "model_checking"
-RULE = ("product space: data classes (both bases) and decorated functions (keyword parameters, *args:int, **kwargs:int) "
+RULE = ("product space: data classes (both bases) and decorated functions (keyword-only parameters, positional-only parameters, *args:int, **kwargs:int) "
         "with 1-3 fields over 11 field types (int, PositiveInt, List[int], Tuple[int,int], Optional[int], Int & PositiveInt, "
         "PositiveInt ^ Literal, Union[PositiveInt, date], nested data class, Dict[str,int], datetime) x addition in {None, False, int} x inputs "
         "assigning every field one of {absent, 4-5 candidate values incl. invalid and invalid-nested-element} and 0-2 "
@@ -70,6 +70,15 @@ def decls(tier):
                 continue
             out.append((base, ((t1, True), (t2, False), (t3, True))))
     out += [("varargs", ()), ("varargs", (("int", True),))]
+    # positional-only parameters: given by position, a missing one is reported by the positional pass
+    for t in ORDER:
+        out.append(("posonly", ((t, True),)))
+        out.append(("posonly", ((t, False),)))
+    for i, (t1, t2) in enumerate(itertools.product(ORDER, repeat=2)):
+        if tier == "thorough" or i % 3 == 0:
+            out.append(("posonly", ((t1, True), (t2, i % 2 == 0))))
+    for t1, t2, t3 in itertools.product(["int", "list", "nested"], repeat=3):
+        out.append(("posonly", ((t1, True), (t2, True), (t3, False))))
     # a Schema whose typed property is computed from field a: an invalid property value is an error of the item 'p'
     out.append(("SchemaProp", (("intok", True),)))
     for t in ORDER:
@@ -112,6 +121,8 @@ def source(base, fields, add_expr):
             params.append((f"{n}: {FTYPES[t][0]}" + ("" if req else " = None"), req))
         if base == "varargs":
             sig = ", ".join([p for p, _ in params] + ["*args: int", "**kwargs: int"])
+        elif base == "posonly":
+            sig = ", ".join([p for p, _ in params] + ["/", "**kwargs: int"])
         else:
             sig = ", ".join(["*"] + [p for p, _ in params] + ["**kwargs: int"]) if params else "**kwargs: int"
         lines.append("ENTERED = []")
@@ -175,6 +186,8 @@ def inputs(base, fields, tier):
     for t, req in fields:
         menus.append([None] + FTYPES[t][1])
     for combo in itertools.product(*menus):
+        if base == "posonly" and any(a is None and b is not None for a, b in zip(combo, combo[1:])):
+            continue        # a position cannot be skipped
         for ex in EXCESS:
             if base == "varargs":
                 for args in ((), ("1",), ("1", "'x'"), ("'x'", "2", "'w'"), ("'x'", "'w'", "3")):
@@ -207,7 +220,7 @@ def expected_failing(env, base, fields, add_expr, combo, ex, args, xopt=""):
             pass
         if fails_alone(env, t, vx, xopt):
             bad.add(n)
-    is_func = base in ("func", "varargs")
+    is_func = base in ("func", "varargs", "posonly")
     for k, vx in ex:
         if is_func:
             # **kwargs: int converts every extra keyword
@@ -237,7 +250,7 @@ def run_shard(shard, tier):
     for base, fields in decls(tier)[lo:hi]:
         adds = ADDITIONS if base in ("Schema", "DataClass", "SchemaProp") else [""]
         xopts = XOPTS if len(fields) <= 2 else [""]
-        if base == "varargs":
+        if base in ("varargs", "posonly"):
             xopts = [x for x in xopts if "max_params" not in x]
         for add_expr, xopt in itertools.product(adds, xopts):
             add_expr = ", ".join(p for p in (add_expr, xopt) if p)
@@ -270,6 +283,8 @@ def item_of(err):
 
 def one_case(acc, env, src, makers, base, fields, add_expr, combo, ex, args, xopt=""):
     data_items = [(n, vx) for n, vx in zip(NAMES, combo) if vx is not None]
+    if base == "posonly":
+        args, data_items = tuple(vx for vx in combo if vx is not None), []
     if base == "varargs":
         # parameters bound by position are not passed by keyword as well
         data_items = data_items[len(args):] if args else data_items
